@@ -23,10 +23,34 @@ def reps(v: int) -> list[tuple[str, Any]]:
     return out
 
 
+def cobol_reads(rng) -> None:
+    """what a client does between two conversions: decode a few mainframe fields (packed, zoned, binary; small and wide pictures).
+    The conversions are functions of their arguments only, so nothing read here may change what they return afterwards."""
+    import stingray.estruct as E
+
+    for _ in range(rng.randint(1, 3)):
+        m = rng.choice([1, 2, 3, 5, 9])
+        k = rng.choice([0, 0, 2])
+        nib = [rng.randrange(10) for _ in range(m + k)]
+        if (m + k) % 2 == 0:
+            nib = [0] + nib
+        nib.append(rng.choice([0xC, 0xD, 0xF]))
+        buf = bytes(nib[i] * 16 + nib[i + 1] for i in range(0, len(nib), 2))
+        pic = f"S9({m})" + (f"V9({k})" if k else "")
+        try:
+            E.unpack(f"USAGE COMP-3 PIC {pic}", buf)
+            E.unpack(f"USAGE DISPLAY PIC 9({m})", bytes(0xF0 + d for d in nib[-m - 1:-1]))
+            E.unpack("USAGE COMP PIC 9(4)", bytes([rng.randrange(256), rng.randrange(256)]))
+        except ValueError:
+            pass
+
+
 def explore(ck: Check, exhaustive_n: int, n_random: int) -> None:
     import stingray.schema_instance as SI
 
     rng = ck.rng
+    cobol_reads(rng)
+    ck.histogram["history/cobol-reads-before-conversions"] += 1
     # ---- digit_string
     cases: list[tuple[int, int]] = []
     for n in range(1, exhaustive_n + 1):
@@ -89,6 +113,8 @@ def explore(ck: Check, exhaustive_n: int, n_random: int) -> None:
         x = Fraction(Decimal(v))
         within = len(str(abs(int(x)))) + d <= 28
         ck.oracle_evaluations += 1
+        if ck.oracle_evaluations % 40 == 0:
+            cobol_reads(rng)
         try:
             r = SI.decimal_places(d, v)
             t = r.as_tuple()
